@@ -51,7 +51,13 @@ def run_property(pid: str, tier: str, seed: int) -> int:
             raise CheckerError(f"the library is unchanged but {was_in[0].rstrip('.')} left the supported subset "
                                f"(engine regression): {[o.detail for o in rep.obligations if o.name.endswith('.in_subset')][:1]}")
     if missing and tier in baseline.get("tiers", ["quick", "thorough"]):
-        raise CheckerError(f"{len(missing)} baseline obligation(s) were not generated, e.g. {missing[:3]}")
+        # On the tree the baseline was taken from, an obligation that is not generated again means the machinery
+        # regressed: checker error.  On an EDITED library (source digest differs) the edit may have removed the loop /
+        # call / clause an obligation was attached to: those obligations are recorded as not regenerated (the level of
+        # this run drops accordingly) and the remaining obligations plus the bounded stand-in decide.
+        if load_baseline().get("_source") == core.source_digest():
+            raise CheckerError(f"{len(missing)} baseline obligation(s) were not generated, e.g. {missing[:3]}")
+        rep.extra["baseline_obligations_not_regenerated_on_the_edited_tree"] = missing[:50]
     for b in rep.bounded:
         if b.cases == 0:
             raise CheckerError(f"bounded contract {b.function} ran zero cases")
